@@ -12,6 +12,9 @@
    I <ch> <n> v1 .. v(n*ch) -> interleave of the n×ch array given row by row
    X <ch> v1 v2 ...     -> deinterleave: rows separated by `|` (`-` = no rows) | `none`
    A <ha> <hb>          -> `<bits of rn53 (a / b)> <bits of rn53 (a * b)>` for two doubles (rounding model alone)
+   V h1 h2 ...          -> per 64-bit pattern: `<num>/<den>:<toBits of that value>` (the exact value `ofBits` assigns to the
+                           pattern and the pattern `toBits` prints for it; `nan` for a NaN pattern)
+   W <b> h1 h2 ...      -> per double: bits of `decode b (encode b x)` (what a written sample reads back as)
    anything else        -> `bad-op` -/
 import Earverif.Model.Pcm
 import Earverif.Driver.Util
@@ -115,6 +118,17 @@ def answer (line : String) : String :=
     | some ch, some vs => match deinterleave ch vs with
       | some rows => if rows.isEmpty then "-" else String.intercalate " | " (rows.map showInts)
       | none => "none"
+    | _, _ => "bad-op"
+  | "V" :: hs =>
+    match hs.mapM hexNat? with
+    | some ws => String.intercalate " " (ws.map fun w =>
+        match ofBits w with
+        | some x => s!"{x.num}/{x.den}:{showBits x}"
+        | none => "nan")
+    | none => "bad-op"
+  | "W" :: b :: hs =>
+    match b.toInt? >>= okDepth, hs.mapM (fun h => hexNat? h >>= ofBits) with
+    | some b, some xs => String.intercalate " " (xs.map fun x => showBits (decode b (encode b x)))
     | _, _ => "bad-op"
   | ["A", ha, hb] =>
     match hexNat? ha >>= ofBits, hexNat? hb >>= ofBits with
